@@ -202,7 +202,7 @@ PROPS = {
     },
     "C02": {
         "level": "other",
-        "rules": [("PA", 1, None), ("DI", 0, None), ("DF", 1, has("VarOrder", "label-tables")), ("GL", 4, has("GL3", "GL2:slot-write", "GL2:grow")), ("TS", 3, has("TS-OCC")), ("HE", 4, has(*BDD_T)),
+        "rules": [("PA", 1, None), ("DI", 0, None), ("DF", 1, has("VarOrder", "label-tables")), ("GL", 4, has("GL3", "GL2:slot-write", "GL2:grow")), ("TS", 2, has("TS-OCC")), ("HE", 4, has(*BDD_T)),
                   ("SH", 1, has("ite_helper:SH1")), ("WC", 4, has("bdd-node")),
                   ("RN", 4, has("RN1", "RN2")), ("IM", 37, has("IM3", "IM4", "IM2")), ("RH", 14, None),
                   ("VO", 14, vo_sel("::bdd::", "var_order")), ("ST", 2, None)],
@@ -217,7 +217,7 @@ PROPS = {
     },
     "C04": {
         "level": "other",
-        "rules": [("PA", 1, None), ("DI", 0, None), ("DF", 1, has("VTreeManager", "label-tables")), ("RN", 8, has("RN3")), ("HE", 7, has(*SDD_T)), ("GL", 2, has("GL3")), ("TS", 3, has("TS-OCC")),
+        "rules": [("PA", 1, None), ("DI", 0, None), ("DF", 1, has("VTreeManager", "label-tables")), ("RN", 8, has("RN3")), ("HE", 7, has(*SDD_T)), ("GL", 2, has("GL3")), ("TS", 2, has("TS-OCC")),
                   ("IM", 22, has("IM4")), ("RH", 14, None), ("CM", 8, None), ("WC", 6, has("sdd-node"))],
         "explanation": "Order of SDD canonicalisation steps on every path to the unique tables (trim, compress, trim, sort, "
                        "sign-normalise, intern: RN3), Hash/Eq agreement of BinarySDD/SddOr/SddAnd and identity Hash/Eq of "
